@@ -2,15 +2,16 @@ SPECIFICATION MCSpec
 CONSTANTS
   Tier = "thorough"
   Modes = {"fields", "flags", "rcode", "ehi", "value", "text", "header", "reg"}
-  MDepth = 3
-  MRDepth = 3
+  MDepth = 2
+  MRDepth = 2
   ValueRegs <- Regs
   Slices = 1
   Slice = 0
-  Ops <- GOps
-  Rcs <- GRcs
-  Vers <- GVers
-  ELos <- GELos
+  Ops <- MOps
+  Rcs <- MRcs
+  Names <- MNames
+  Vers <- MVers
+  ELos <- MELos
   RVals <- GRVals
   RTexts <- GRTexts
 INVARIANT FieldLaws
